@@ -304,3 +304,29 @@ def looks_up_start(P, g):
                 if any(strip(a) == ("str", '"start"') for a in F2.call_args(e2[b2], b2)[1:]):
                     return True
     return False
+
+
+def undispatched_interpreter_calls(ctx, drv):
+    """Every call of the interpreter executes one instruction (or one iteration of a repeated one) and answers with what
+    has to happen next.  The driver has one place where that answer is dispatched over all State variants.  A further
+    call site from which that dispatch cannot be reached before the loop is re-entered executes an instruction and
+    drops its outcome (NEXT, JMP, HALT, INT, PRINT are then never acted on; the line is issued again).
+    -> list of (block, line) of such call sites; None if the structure is not recognised"""
+    sites = [(bi, t) for bi, t in M.calls_in(drv) if (t[1].get("def") or "").endswith("Interpreter::parse")]
+    if not sites:
+        return None
+    sw, arms, other = state_switch(ctx, drv)
+    if sw is None:
+        return None
+    cfg = M.CFG(drv)
+    main = [bi for bi, t in sites if sw in cfg.reachable_from(t[4], avoid={bi}) and not any(o != bi and o in cfg.reachable_from(t[4], avoid={sw}) and sw in cfg.reachable_from(o) and False for o, _ in sites)]
+    out = []
+    for bi, t in sites:
+        if t[4] is None:
+            continue
+        others = {o for o, _ in sites if o != bi}
+        # the dispatch is reached from this call without executing another instruction first
+        if sw in cfg.reachable_from(t[4], avoid=others | {bi}):
+            continue
+        out.append((bi, drv["blocks"][bi]["term"].get("line")))
+    return out
